@@ -10,3 +10,249 @@ package catalog
 // Determinism (C06): see core/zz_verif_contracts.go
 //@ maporder (ObjectBuilder).AddProperty 1 AddType registers user types under distinct names taken from a map's keys (assumed commutative)
 //@ maporder NewExchangeJSightSchema 1 AddRule registers rules under distinct names taken from a map's keys (assumed commutative)
+
+// ---------------------------------------------------------------------------
+// Generated ordered maps (catalog/*_gen.go): abstract view = (order: sequence of keys, data: key -> value)
+// with "keys of order are pairwise distinct and all in data" (C03, C05). One block per generated type.
+//@ extern (*sync.RWMutex).Lock
+//@   attr pure nopanic
+//@ extern (*sync.RWMutex).Unlock
+//@   attr pure nopanic
+//@ extern (*sync.RWMutex).RLock
+//@   attr pure nopanic
+//@ extern (*sync.RWMutex).RUnlock
+//@   attr pure nopanic
+
+//@ pred omTagsInv(m *Tags) := m != nil && 0 <= m.order.off
+//@     && forallp(i, at(m.order, i), imp(m.order.off <= i && i < m.order.off + len(m.order), has(m.data, at(m.order, i))))
+//@     && forallp(i, j, at(m.order, i), at(m.order, j), imp(m.order.off <= i && i < j && j < m.order.off + len(m.order), at(m.order, i) != at(m.order, j)))
+//@ func (*Tags).has(m, k)
+//@   property C03,C05
+//@   requires m != nil
+//@   modifies nothing
+//@   ensures result == has(m.data, k)
+//@ func (*Tags).Has(m, k)
+//@   property C03,C05
+//@   requires m != nil
+//@   modifies nothing
+//@   ensures result == has(m.data, k)
+//@ func (*Tags).Get(m, k)
+//@   property C03,C05
+//@   requires m != nil
+//@   modifies nothing
+//@   ensures result1 == has(m.data, k) && imp(result1, result0 == m.data[k])
+//@ func (*Tags).GetValue(m, k)
+//@   property C03,C05
+//@   requires m != nil
+//@   modifies nothing
+//@   ensures imp(has(m.data, k), result == m.data[k])
+//@ func (*Tags).Set(m, k, v)
+//@   property C03,C05
+//@   requires omTagsInv(m)
+//@   modifies m.data, m.data[:], m.order, m.order[:]
+//@   ensures omTagsInv(m) && has(m.data, k) && m.data[k] == v
+//@   ensures imp(old(has(m.data, k)), len(m.order) == old(len(m.order)))
+//@   ensures imp(!old(has(m.data, k)), len(m.order) == old(len(m.order)) + 1 && m.order[len(m.order)-1] == k)
+//@   ensures m.order.arr == old(m.order.arr) || fresh(m.order.arr)
+//@   ensures[C03,C05,@only-this-key] forall(q, TagName, imp(q != k, has(m.data, q) == old(has(m.data, q)) && imp(has(m.data, q), m.data[q] == old(m.data[q]))))
+
+//@ pred omServersInv(m *Servers) := m != nil && 0 <= m.order.off
+//@     && forallp(i, at(m.order, i), imp(m.order.off <= i && i < m.order.off + len(m.order), has(m.data, at(m.order, i))))
+//@     && forallp(i, j, at(m.order, i), at(m.order, j), imp(m.order.off <= i && i < j && j < m.order.off + len(m.order), at(m.order, i) != at(m.order, j)))
+//@ func (*Servers).has(m, k)
+//@   property C03,C05
+//@   requires m != nil
+//@   modifies nothing
+//@   ensures result == has(m.data, k)
+//@ func (*Servers).Has(m, k)
+//@   property C03,C05
+//@   requires m != nil
+//@   modifies nothing
+//@   ensures result == has(m.data, k)
+//@ func (*Servers).Get(m, k)
+//@   property C03,C05
+//@   requires m != nil
+//@   modifies nothing
+//@   ensures result1 == has(m.data, k) && imp(result1, result0 == m.data[k])
+//@ func (*Servers).GetValue(m, k)
+//@   property C03,C05
+//@   requires m != nil
+//@   modifies nothing
+//@   ensures imp(has(m.data, k), result == m.data[k])
+//@ func (*Servers).Set(m, k, v)
+//@   property C03,C05
+//@   requires omServersInv(m)
+//@   modifies m.data, m.data[:], m.order, m.order[:]
+//@   ensures omServersInv(m) && has(m.data, k) && m.data[k] == v
+//@   ensures imp(old(has(m.data, k)), len(m.order) == old(len(m.order)))
+//@   ensures imp(!old(has(m.data, k)), len(m.order) == old(len(m.order)) + 1 && m.order[len(m.order)-1] == k)
+//@   ensures m.order.arr == old(m.order.arr) || fresh(m.order.arr)
+//@   ensures[C03,C05,@only-this-key] forall(q, string, imp(q != k, has(m.data, q) == old(has(m.data, q)) && imp(has(m.data, q), m.data[q] == old(m.data[q]))))
+
+//@ pred omUserTypesInv(m *UserTypes) := m != nil && 0 <= m.order.off
+//@     && forallp(i, at(m.order, i), imp(m.order.off <= i && i < m.order.off + len(m.order), has(m.data, at(m.order, i))))
+//@     && forallp(i, j, at(m.order, i), at(m.order, j), imp(m.order.off <= i && i < j && j < m.order.off + len(m.order), at(m.order, i) != at(m.order, j)))
+//@ func (*UserTypes).has(m, k)
+//@   property C03,C05
+//@   requires m != nil
+//@   modifies nothing
+//@   ensures result == has(m.data, k)
+//@ func (*UserTypes).Has(m, k)
+//@   property C03,C05
+//@   requires m != nil
+//@   modifies nothing
+//@   ensures result == has(m.data, k)
+//@ func (*UserTypes).Get(m, k)
+//@   property C03,C05
+//@   requires m != nil
+//@   modifies nothing
+//@   ensures result1 == has(m.data, k) && imp(result1, result0 == m.data[k])
+//@ func (*UserTypes).GetValue(m, k)
+//@   property C03,C05
+//@   requires m != nil
+//@   modifies nothing
+//@   ensures imp(has(m.data, k), result == m.data[k])
+//@ func (*UserTypes).Set(m, k, v)
+//@   property C03,C05
+//@   requires omUserTypesInv(m)
+//@   modifies m.data, m.data[:], m.order, m.order[:]
+//@   ensures omUserTypesInv(m) && has(m.data, k) && m.data[k] == v
+//@   ensures imp(old(has(m.data, k)), len(m.order) == old(len(m.order)))
+//@   ensures imp(!old(has(m.data, k)), len(m.order) == old(len(m.order)) + 1 && m.order[len(m.order)-1] == k)
+//@   ensures m.order.arr == old(m.order.arr) || fresh(m.order.arr)
+//@   ensures[C03,C05,@only-this-key] forall(q, string, imp(q != k, has(m.data, q) == old(has(m.data, q)) && imp(has(m.data, q), m.data[q] == old(m.data[q]))))
+
+//@ pred omUserRulesInv(m *UserRules) := m != nil && 0 <= m.order.off
+//@     && forallp(i, at(m.order, i), imp(m.order.off <= i && i < m.order.off + len(m.order), has(m.data, at(m.order, i))))
+//@     && forallp(i, j, at(m.order, i), at(m.order, j), imp(m.order.off <= i && i < j && j < m.order.off + len(m.order), at(m.order, i) != at(m.order, j)))
+//@ func (*UserRules).has(m, k)
+//@   property C03,C05
+//@   requires m != nil
+//@   modifies nothing
+//@   ensures result == has(m.data, k)
+//@ func (*UserRules).Has(m, k)
+//@   property C03,C05
+//@   requires m != nil
+//@   modifies nothing
+//@   ensures result == has(m.data, k)
+//@ func (*UserRules).Get(m, k)
+//@   property C03,C05
+//@   requires m != nil
+//@   modifies nothing
+//@   ensures result1 == has(m.data, k) && imp(result1, result0 == m.data[k])
+//@ func (*UserRules).GetValue(m, k)
+//@   property C03,C05
+//@   requires m != nil
+//@   modifies nothing
+//@   ensures imp(has(m.data, k), result == m.data[k])
+//@ func (*UserRules).Set(m, k, v)
+//@   property C03,C05
+//@   requires omUserRulesInv(m)
+//@   modifies m.data, m.data[:], m.order, m.order[:]
+//@   ensures omUserRulesInv(m) && has(m.data, k) && m.data[k] == v
+//@   ensures imp(old(has(m.data, k)), len(m.order) == old(len(m.order)))
+//@   ensures imp(!old(has(m.data, k)), len(m.order) == old(len(m.order)) + 1 && m.order[len(m.order)-1] == k)
+//@   ensures m.order.arr == old(m.order.arr) || fresh(m.order.arr)
+//@   ensures[C03,C05,@only-this-key] forall(q, string, imp(q != k, has(m.data, q) == old(has(m.data, q)) && imp(has(m.data, q), m.data[q] == old(m.data[q]))))
+
+//@ pred omInteractionsInv(m *Interactions) := m != nil && 0 <= m.order.off
+//@     && forallp(i, at(m.order, i), imp(m.order.off <= i && i < m.order.off + len(m.order), has(m.data, at(m.order, i))))
+//@     && forallp(i, j, at(m.order, i), at(m.order, j), imp(m.order.off <= i && i < j && j < m.order.off + len(m.order), at(m.order, i) != at(m.order, j)))
+//@ func (*Interactions).has(m, k)
+//@   property C03,C05
+//@   requires m != nil
+//@   modifies nothing
+//@   ensures result == has(m.data, k)
+//@ func (*Interactions).Has(m, k)
+//@   property C03,C05
+//@   requires m != nil
+//@   modifies nothing
+//@   ensures result == has(m.data, k)
+//@ func (*Interactions).Get(m, k)
+//@   property C03,C05
+//@   requires m != nil
+//@   modifies nothing
+//@   ensures result1 == has(m.data, k) && imp(result1, result0 == m.data[k])
+//@ func (*Interactions).GetValue(m, k)
+//@   property C03,C05
+//@   requires m != nil
+//@   modifies nothing
+//@   ensures imp(has(m.data, k), result == m.data[k])
+//@ func (*Interactions).Set(m, k, v)
+//@   property C03,C05
+//@   requires omInteractionsInv(m)
+//@   modifies m.data, m.data[:], m.order, m.order[:]
+//@   ensures omInteractionsInv(m) && has(m.data, k) && m.data[k] == v
+//@   ensures imp(old(has(m.data, k)), len(m.order) == old(len(m.order)))
+//@   ensures imp(!old(has(m.data, k)), len(m.order) == old(len(m.order)) + 1 && m.order[len(m.order)-1] == k)
+//@   ensures m.order.arr == old(m.order.arr) || fresh(m.order.arr)
+
+// ---------------------------------------------------------------------------
+// Setters (C03: a second definition is rejected and changes nothing; C05: names stay unique)
+
+//@ pred catInv(c *Catalog) := c != nil && omTagsInv(c.Tags) && omServersInv(c.Servers) && omUserTypesInv(c.UserTypes)
+//@     && omUserRulesInv(c.UserEnums) && omInteractionsInv(c.Interactions)
+//@     && sepArr(c.Servers.order.arr, c.UserTypes.order.arr) && sepArr(c.Servers.order.arr, c.UserEnums.order.arr)
+//@     && sepArr(c.UserTypes.order.arr, c.UserEnums.order.arr)
+// two []string backing arrays do not overlap (the same element heap holds the key orders of three maps)
+//@ pred sepArr(a int, b int) := a != b || a == 0
+
+//@ func (*Catalog).AddTag(c, name, title)
+//@   property C03,C05
+//@   requires catInv(c)
+//@   modifies fields(c.Tags), c.Tags.data[:], c.Tags.order[:]
+//@   ensures[C03,@duplicate-tag] imp(old(has(c.Tags.data, TagName(name))), result != nil && len(c.Tags.order) == old(len(c.Tags.order)))
+//@   ensures[C03,C05] imp(!old(has(c.Tags.data, TagName(name))), result == nil && has(c.Tags.data, TagName(name)) && c.Tags.data[TagName(name)] != nil
+//@       && c.Tags.data[TagName(name)].Name == TagName(name))
+//@   ensures catInv(c)
+
+//@ func (*Catalog).AddServer(c, name, annotation)
+//@   property C03,C05
+//@   requires catInv(c)
+//@   modifies fields(c.Servers), c.Servers.data[:], c.Servers.order[:]
+//@   ensures[C03,@duplicate-server] imp(old(has(c.Servers.data, name)), result != nil && len(c.Servers.order) == old(len(c.Servers.order)))
+//@   ensures[C03,C05] imp(!old(has(c.Servers.data, name)), result == nil && has(c.Servers.data, name) && c.Servers.data[name] != nil)
+//@   ensures catInv(c)
+
+//@ func (*Catalog).AddJSight(c, version)
+//@   property C03,C05
+//@   requires c != nil
+//@   modifies c.JSightVersion
+//@   ensures[C03,@jsight-repeated] imp(old(c.JSightVersion) != "", result != nil && c.JSightVersion == old(c.JSightVersion))
+//@   ensures[C03,C05] imp(old(c.JSightVersion) == "", result == nil && c.JSightVersion == version)
+
+//@ func (*Catalog).AddInfo(c, d)
+//@   property C03
+//@   requires c != nil
+//@   modifies c.Info
+//@   ensures[C03,@info-repeated] imp(old(c.Info) != nil, result != nil && c.Info == old(c.Info))
+//@   ensures imp(old(c.Info) == nil, result == nil && c.Info != nil && fresh(c.Info) && c.Info.Title == "" && c.Info.Version == "" && c.Info.Description == nil)
+
+//@ func (*Catalog).AddTitle(c, name)
+//@   property C03,C01
+//@   requires[C01,C03] c != nil && c.Info != nil
+//@   modifies c.Info.Title
+//@   ensures[C03,@title-repeated] imp(old(c.Info.Title) != "", result != nil && c.Info.Title == old(c.Info.Title))
+//@   ensures imp(old(c.Info.Title) == "", result == nil && c.Info.Title == name)
+
+//@ func (*Catalog).AddVersion(c, version)
+//@   property C03,C01
+//@   requires[C01,C03] c != nil && c.Info != nil
+//@   modifies c.Info.Version
+//@   ensures[C03,@version-repeated] imp(old(c.Info.Version) != "", result != nil && c.Info.Version == old(c.Info.Version))
+//@   ensures imp(old(c.Info.Version) == "", result == nil && c.Info.Version == version)
+
+//@ func (*Catalog).AddDescriptionToInfo(c, text)
+//@   property C03,C01
+//@   requires[C01,C03] c != nil && c.Info != nil
+//@   modifies c.Info.Description
+//@   ensures[C03,@description-repeated] imp(old(c.Info.Description) != nil, result != nil && c.Info.Description == old(c.Info.Description))
+//@   ensures imp(old(c.Info.Description) == nil, result == nil && c.Info.Description != nil)
+
+//@ func (*Catalog).AddBaseURL(c, serverName, path)
+//@   property C03,C01
+//@   requires catInv(c) && forall(k, string, imp(has(c.Servers.data, k), c.Servers.data[k] != nil))
+//@   modifies allfield(Server, BaseUrl)
+//@   ensures[C03,@unknown-server] imp(!has(c.Servers.data, serverName), result != nil)
+//@   ensures[C03,@baseurl-repeated] imp(has(c.Servers.data, serverName) && old(c.Servers.data[serverName].BaseUrl) != "", result != nil && c.Servers.data[serverName].BaseUrl == old(c.Servers.data[serverName].BaseUrl))
+//@   ensures imp(has(c.Servers.data, serverName) && old(c.Servers.data[serverName].BaseUrl) == "", result == nil && c.Servers.data[serverName].BaseUrl == path)
